@@ -46,7 +46,14 @@ def one_case(src, idx, seed, tier, keep=False):
     name, opts, size = corrupt.IMG_CONFIGS[idx % len(corrupt.IMG_CONFIGS)] if tier == "quick" else r.choice(corrupt.IMG_CONFIGS)
     base = corrupt.build_image(src, WORK, name, opts, size, 1 + (idx // 200) % 3)
     img = os.path.join(WORK, "case_%d.img" % idx)
-    desc = corrupt.corrupt(base, img, r)
+    # the first cases are the boundary operators, each on a block-mapped and on an extent/checksum configuration
+    nd = 2 * len(corrupt.DIRECTED)
+    if idx < nd:
+        name, opts, size = [c for c in corrupt.IMG_CONFIGS if c[0] == ("ext3" if idx % 2 == 0 else "ext4_1k")][0]
+        base = corrupt.build_image(src, WORK, name, opts, size, 1)
+        desc = corrupt.corrupt(base, img, r, directed=idx // 2)
+    else:
+        desc = corrupt.corrupt(base, img, r)
     recipe = {"base": name, "mke2fs": opts, "size": size, "build_seed": 1 + (idx // 200) % 3, "case_index": idx, "operators": desc}
     cons0 = judge_consistency(img)
     rc_n, probs_n, out_n = fsck(src, img, ["-fn"], "n1")
